@@ -21,6 +21,10 @@ package remote
 //            The verdict v|u|w is about the leaf.  TLSA kinds p = DANE-EE (3 1 1) record of the extra certificate G/F,
 //            i = DANE-EE (3 0 1) record of the presented issuer certificate, a = DANE-TA (2 1 1) record of the extra
 //            certificate; p/a need a chain with an extra certificate, t/i one that contains the issuer.
+//     slow  = <0|1>[<crash a|c|t>]: the TLSA answers are delayed; the lookups of TLSA discovery for this MX CRASH (a panic inside the
+//            extended resolver, in the goroutine PrepareConn started) at the address lookups / the CNAME-type query / the first
+//            TLSA lookup.  Only for the single MX of a domain in `hist` cases; the recipient's AddRcpt call has a context of its
+//            own, which ends (deadline exceeded) once the crashed discovery has left the delivery waiting in CheckConn.
 //     alias = <s|i><tlsa at the initial name n|e|t|m|u|f|p|i|a><its AD bit><CNAME-type query fails>
 //            the MX host name is a CNAME (s: signed CNAME RRset, i: unsigned) to a canonical name; aAD/tlsaAD/tlsa
 //            then describe the canonical name (address RRset, TLSA RRset), the alias field the TLSA RRset published
@@ -50,6 +54,19 @@ package remote
 //            hands to the remote target must be the FINAL content.  Every server implements SMTPUTF8 here.
 //   observation: as for `hist`, every DATA item has a 5th field: SMTPUTF8 parameter of the MAIL command.
 //
+//   op line:  C05 retry <front q|p><mode r|s|b> <cfg> <dom0> <dom1> <dom0'> <dom1'> <vmsgs>     several attempts
+//     As `via`, but the queue is configured with max_tries 2 and the world CHANGES after the first attempts: <dom0> <dom1>
+//     is the world of the first attempt of every message, <dom0'> <dom1'> (new servers, new DNS content, a remote target
+//     with an empty connection pool) the world in which the recipients that failed temporarily are tried again from the
+//     spool.  mode r: the same queue instance retries (initialRetryTime 0; the attempt is held in front of the target until
+//     the world has changed); s: the queue is closed after the first attempts, a new instance is started on the same spool
+//     (initialRetryTime / postInitDelay 0); b: the queue is closed between Body and Commit of the messages — before any
+//     attempt —, the new instance makes the FIRST attempt from the spool in the second world (max_tries 1).
+//   observation: per message `<attempt 1> >> <attempt 2>`, each as for `via` (recipients of that attempt) or `-`.
+//   cfg: the local field may carry the arguments of min_tls_level / min_mx_level as written: <t><m>~<hex|_>~<hex|_>
+//     (`_`: the directive is left out); <t><m> are then the levels the words document.  A configuration that Init refuses
+//     has the observation `refused`.
+//
 // The monitor (c05Monitor) evaluates the property from the scripted ground truth and what the
 // servers received; it does not look at the model or at the levels the code computed.
 
@@ -74,6 +91,8 @@ import (
 	"strconv"
 	"strings"
 	"sync"
+	"sync/atomic"
+	"runtime"
 	"testing"
 	"time"
 	"unsafe"
@@ -83,6 +102,7 @@ import (
 	"github.com/foxcpp/go-mockdns"
 	"github.com/foxcpp/go-mtasts"
 	"github.com/foxcpp/maddy/framework/buffer"
+	parser "github.com/foxcpp/maddy/framework/cfgparser"
 	"github.com/foxcpp/maddy/framework/config"
 	"github.com/foxcpp/maddy/framework/dns"
 	"github.com/foxcpp/maddy/framework/exterrors"
@@ -118,6 +138,11 @@ type c05MX struct {
 	// address families of the (canonical) host name: 0 an A record only, '6' an AAAA record only, 'b' both.  One zone, one AD bit: aAD is the AD bit of
 	// whichever address RRsets exist.
 	fam byte
+	// the lookups of TLSA discovery for this MX CRASH (a panic inside the extended resolver's code, in the goroutine
+	// PrepareConn started): 0 no, 'a' at the address lookups (CheckCNAMEAD), 'c' at the CNAME-type query
+	// (AuthLookupCNAME), 't' at the first TLSA lookup (AuthLookupTLSA).  Only for the single candidate of a domain, in
+	// `hist` cases (see c05CrashCtx).
+	crash byte
 }
 
 type c05Dom struct {
@@ -132,6 +157,70 @@ type c05Cfg struct {
 	minTLS, minMX                 int
 	override, relaxed             bool
 	reuse                         int
+	// the arguments of min_tls_level / min_mx_level as the administrator wrote them (nil: the documented lower-case words).
+	// minTLS / minMX are then the levels these words DOCUMENT (the word without surrounding junk, in lower case; a
+	// directive that is left out documents the default: encrypted / none) — the monitor's ground truth.
+	words *c05Words
+}
+
+type c05Words struct {
+	tls, mx         string
+	tlsOmit, mxOmit bool // the directive is not written at all
+}
+
+var c05TLSWords = []string{"none", "encrypted", "authenticated"}
+var c05MXWords = []string{"none", "mtasts", "dnssec"}
+
+const c05DefaultMinTLS, c05DefaultMinMX = 1, 0
+
+func c05EncWord(w string, omit bool) string {
+	if omit {
+		return "_"
+	}
+	return vh.HexBytes([]byte(w))
+}
+
+func c05DecWord(s string) (string, bool, error) {
+	if s == "_" {
+		return "", true, nil
+	}
+	if s == "-" || len(s)%2 != 0 || strings.Trim(s, "0123456789abcdef") != "" {
+		return "", false, errors.New("bad word " + s)
+	}
+	return string(vh.UnhexBytes(s)), false, nil
+}
+
+// the letters of a word, in lower case (what is left when the junk around it is taken away)
+func c05WordCore(w string) string {
+	var b []byte
+	for i := 0; i < len(w); i++ {
+		ch := w[i]
+		if ch >= 'A' && ch <= 'Z' {
+			ch += 'a' - 'A'
+		}
+		if ch >= 'a' && ch <= 'z' {
+			b = append(b, ch)
+		}
+	}
+	return string(b)
+}
+
+// how a word is spelled, relative to the documented one (distribution keys)
+func c05Spelling(w string, omit bool) string {
+	core := c05WordCore(w)
+	switch {
+	case omit:
+		return "omitted"
+	case w == core:
+		return "lower"
+	case len(w) != len(core):
+		return "junk"
+	case w == strings.ToUpper(core):
+		return "UPPER"
+	case w == strings.ToUpper(core[:1])+core[1:]:
+		return "Capitalised"
+	}
+	return "mIxed"
 }
 
 type c05Msg struct {
@@ -165,6 +254,12 @@ type c05Hist struct {
 	msgs []c05Msg
 	conc *c05Conc // nil: consecutive messages
 	front byte    // 0: the remote target is driven directly; q / p: through the real queue / msgpipeline + queue
+	// `retry` cases (front != 0): r the queue retries from its spool, s the queue is restarted between the attempts,
+	// b it is restarted before the first attempt; doms is the world of the first attempt, domsB the world afterwards
+	retry byte
+	domsB [2]c05Dom
+	// set on the per-attempt views of a `retry` case: the op line of the whole case
+	opLine string
 }
 
 // overlapping deliveries: see the op line description
@@ -193,7 +288,11 @@ func (m c05MX) String() string {
 	if m.fam != 0 {
 		up += string(m.fam)
 	}
-	s := fmt.Sprintf("%d.%s.%c.%s.%s.%s.%s.%c.%s.%s", m.srv, up, m.starttls, cert, c05b(m.stsMatch), c05b(m.aAD), c05b(m.tlsaAD), m.tlsa, c05b(m.reqtls), c05b(m.slow))
+	slow := c05b(m.slow)
+	if m.crash != 0 {
+		slow += string(m.crash)
+	}
+	s := fmt.Sprintf("%d.%s.%c.%s.%s.%s.%s.%c.%s.%s", m.srv, up, m.starttls, cert, c05b(m.stsMatch), c05b(m.aAD), c05b(m.tlsaAD), m.tlsa, c05b(m.reqtls), slow)
 	if m.alias != 0 {
 		s += fmt.Sprintf(".%c%c%s%s", m.alias, m.tlsaI, c05b(m.tlsaIAD), c05b(m.cnameErr))
 	}
@@ -212,6 +311,9 @@ func (c c05Cfg) String() string {
 	l := "-"
 	if c.local {
 		l = fmt.Sprintf("%d%d", c.minTLS, c.minMX)
+		if w := c.words; w != nil {
+			l += "~" + c05EncWord(w.tls, w.tlsOmit) + "~" + c05EncWord(w.mx, w.mxOmit)
+		}
 	}
 	return fmt.Sprintf("%s%s%s%s.%s.%s%s.%d", c05b(c.mtasts), c05b(c.preload), c05b(c.dane), c05b(c.dnssec), l, c05b(c.override), c05b(c.relaxed), c.reuse)
 }
@@ -232,9 +334,15 @@ func (m c05Msg) String() string {
 }
 
 func (h c05Hist) Op() string {
+	if h.opLine != "" {
+		return h.opLine
+	}
 	var ms []string
 	for _, m := range h.msgs {
 		ms = append(ms, m.String())
+	}
+	if h.retry != 0 {
+		return fmt.Sprintf("C05 retry %c%c %s %s %s %s %s %s", h.front, h.retry, h.cfg, h.doms[0], h.doms[1], h.domsB[0], h.domsB[1], strings.Join(ms, "/"))
 	}
 	if h.front != 0 {
 		return fmt.Sprintf("C05 via %c %s %s %s %s", h.front, h.cfg, h.doms[0], h.doms[1], strings.Join(ms, "/"))
@@ -268,7 +376,14 @@ func c05ParseMX(s string) (c05MX, error) {
 		return c05MX{}, err
 	}
 	m := c05MX{srv: srv, up: f[1][0] == '1', starttls: f[2][0], cert: f[3][0], stsMatch: f[4] == "1", aAD: f[5] == "1",
-		tlsaAD: f[6] == "1", tlsa: f[7][0], reqtls: f[8] == "1", slow: f[9] == "1"}
+		tlsaAD: f[6] == "1", tlsa: f[7][0], reqtls: f[8] == "1", slow: strings.HasPrefix(f[9], "1")}
+	if len(f[9]) == 2 {
+		if m.crash = f[9][1]; !strings.ContainsRune("act", rune(m.crash)) {
+			return c05MX{}, errors.New("bad crash stage " + s)
+		}
+	} else if len(f[9]) != 1 {
+		return c05MX{}, errors.New("bad slow field " + s)
+	}
 	if len(f[1]) == 2 {
 		if m.fam = f[1][1]; m.fam != '6' && m.fam != 'b' {
 			return c05MX{}, errors.New("bad address family " + s)
@@ -321,6 +436,18 @@ func c05ParseOp(op string) (c05Hist, error) {
 			return h, errors.New("bad script")
 		}
 		t = append(t[:5:5], t[6])
+	} else if len(t) == 9 && t[0] == "C05" && t[1] == "retry" {
+		if len(t[2]) != 2 || !strings.ContainsRune("qp", rune(t[2][0])) || !strings.ContainsRune("rsb", rune(t[2][1])) {
+			return h, errors.New("bad front / mode")
+		}
+		h.front, h.retry = t[2][0], t[2][1]
+		for i := 0; i < 2; i++ {
+			var err error
+			if h.domsB[i], err = c05ParseDom(t[6+i]); err != nil {
+				return h, err
+			}
+		}
+		t = []string{t[0], t[1], t[3], t[4], t[5], t[8]}
 	} else if len(t) == 7 && t[0] == "C05" && t[1] == "via" {
 		if t[2] != "q" && t[2] != "p" {
 			return h, errors.New("bad front")
@@ -336,11 +463,30 @@ func c05ParseOp(op string) (c05Hist, error) {
 	}
 	h.cfg.mtasts, h.cfg.preload, h.cfg.dane, h.cfg.dnssec = cf[0][0] == '1', cf[0][1] == '1', cf[0][2] == '1', cf[0][3] == '1'
 	if cf[1] != "-" {
-		if len(cf[1]) != 2 {
+		lf := strings.Split(cf[1], "~")
+		if len(lf[0]) != 2 || (len(lf) != 1 && len(lf) != 3) {
 			return h, errors.New("bad local")
 		}
 		h.cfg.local = true
-		h.cfg.minTLS, h.cfg.minMX = int(cf[1][0]-'0'), int(cf[1][1]-'0')
+		h.cfg.minTLS, h.cfg.minMX = int(lf[0][0]-'0'), int(lf[0][1]-'0')
+		if h.cfg.minTLS < 0 || h.cfg.minTLS > 2 || h.cfg.minMX < 0 || h.cfg.minMX > 2 {
+			return h, errors.New("bad local levels")
+		}
+		if len(lf) == 3 {
+			w := &c05Words{}
+			var e1, e2 error
+			w.tls, w.tlsOmit, e1 = c05DecWord(lf[1])
+			w.mx, w.mxOmit, e2 = c05DecWord(lf[2])
+			if e1 != nil || e2 != nil {
+				return h, errors.New("bad local words")
+			}
+			// the levels are the ones the words document
+			if (w.tlsOmit && h.cfg.minTLS != c05DefaultMinTLS) || (!w.tlsOmit && c05WordCore(w.tls) != c05TLSWords[h.cfg.minTLS]) ||
+				(w.mxOmit && h.cfg.minMX != c05DefaultMinMX) || (!w.mxOmit && c05WordCore(w.mx) != c05MXWords[h.cfg.minMX]) {
+				return h, errors.New("local words do not document the given levels")
+			}
+			h.cfg.words = w
+		}
 	}
 	h.cfg.override, h.cfg.relaxed = cf[2][0] == '1', cf[2][1] == '1'
 	var err error
@@ -376,6 +522,15 @@ func c05ParseOp(op string) (c05Hist, error) {
 	}
 	if h.conc != nil && !c05ConcOK(h) {
 		return h, errors.New("ill-formed batch")
+	}
+	for _, ds := range [][2]c05Dom{h.doms, h.domsB} {
+		for _, d := range ds {
+			for _, m := range d.mxs {
+				if m.crash != 0 && (len(d.mxs) != 1 || h.front != 0 || h.conc != nil) {
+					return h, errors.New("a crashing discovery is only driven for the single MX of a domain, in hist cases")
+				}
+			}
+		}
 	}
 	return h, nil
 }
@@ -893,9 +1048,19 @@ type c05Env struct {
 	dnsFront *miekgdns.Server
 	sts      *mtastsPolicy
 	world    *c05World
+	pg       *PolicyGroup
+	cfgText  string
+	// PolicyGroup.Init returned an error: the configuration is refused at start-up, nothing runs
+	refused    bool
+	refusedWhy string
+	closed     bool
 }
 
 func (e *c05Env) Close() {
+	if e.closed || e.refused {
+		return
+	}
+	e.closed = true
 	if e.gate != nil {
 		e.gate.Release()
 	}
@@ -917,10 +1082,87 @@ func (e *c05Env) Close() {
 
 var c05Quiet = log.Logger{Out: log.NopOutput{}, Name: "c05"}
 
+// c05PolicyText writes the mx_auth block of the case as an administrator would: the policy blocks in a seeded order (Init
+// is what puts them into application order), the two directives of local_policy in a seeded order with the arguments
+// spelled as the op line says (quoted where the lexer needs it, and sometimes where it does not).
+func c05PolicyText(c c05Cfg, rng *vh.Rng) string {
+	quote := func(w string) string {
+		bare := w != ""
+		for i := 0; i < len(w); i++ {
+			ch := w[i]
+			if !(ch >= 'a' && ch <= 'z' || ch >= 'A' && ch <= 'Z' || ch >= '0' && ch <= '9' || ch == '_') {
+				bare = false
+			}
+		}
+		if bare && !rng.Chance(20) {
+			return w
+		}
+		return `"` + strings.ReplaceAll(w, `"`, `\"`) + `"`
+	}
+	var blocks []string
+	if c.mtasts {
+		blocks = append(blocks, "    mtasts {\n        cache ram\n    }\n")
+	}
+	if c.preload {
+		blocks = append(blocks, "    sts_preload\n")
+	}
+	if c.dane {
+		blocks = append(blocks, "    dane\n")
+	}
+	if c.dnssec {
+		blocks = append(blocks, "    dnssec\n")
+	}
+	if c.local {
+		w := c.words
+		if w == nil {
+			w = &c05Words{tls: c05TLSWords[c.minTLS], mx: c05MXWords[c.minMX]}
+		}
+		var ds []string
+		if !w.tlsOmit {
+			ds = append(ds, "        min_tls_level "+quote(w.tls)+"\n")
+		}
+		if !w.mxOmit {
+			ds = append(ds, "        min_mx_level "+quote(w.mx)+"\n")
+		}
+		if len(ds) == 2 && rng.Chance(50) {
+			ds[0], ds[1] = ds[1], ds[0]
+		}
+		if len(ds) == 0 && rng.Chance(50) {
+			blocks = append(blocks, "    local_policy\n")
+		} else {
+			blocks = append(blocks, "    local_policy {\n"+strings.Join(ds, "")+"    }\n")
+		}
+	}
+	for i := len(blocks) - 1; i > 0; i-- {
+		j := rng.Intn(i + 1)
+		blocks[i], blocks[j] = blocks[j], blocks[i]
+	}
+	return "mx_auth {\n" + strings.Join(blocks, "") + "}\n"
+}
+
+// The policy list is produced by the REAL configuration path: directive text -> cfgparser.Read -> config.Map ->
+// PolicyGroup.Init -> Init of every policy module.  An error of Init is the refusal of the configuration at start-up.
+func c05BuildPolicies(t *testing.T, c c05Cfg, rng *vh.Rng) (*PolicyGroup, string, error) {
+	text := c05PolicyText(c, rng)
+	nodes, err := parser.Read(strings.NewReader(text), "c05.conf")
+	if err != nil || len(nodes) != 1 || nodes[0].Name != "mx_auth" {
+		t.Fatalf("c05: generated configuration text does not parse (%v):\n%s", err, text)
+	}
+	pg := &PolicyGroup{pols: map[string]module.MXAuthPolicy{}}
+	if err := pg.Init(config.NewMap(nil, nodes[0])); err != nil {
+		return nil, text, err
+	}
+	return pg, text, nil
+}
+
 func c05Setup(t *testing.T, h c05Hist, pki *c05PKI, rng *vh.Rng, verbose bool) *c05Env {
+	prePG, text, err := c05BuildPolicies(t, h.cfg, rng)
+	if err != nil {
+		return &c05Env{refused: true, refusedWhy: err.Error(), cfgText: text}
+	}
 	zones := c05Zones(h, pki)
 	dnsSrv, tgt := c05TargetWithExtResolver(t, zones)
-	env := &c05Env{tgt: tgt, dnsSrv: dnsSrv, world: &c05World{mails: map[string]int{}}}
+	env := &c05Env{tgt: tgt, dnsSrv: dnsSrv, world: &c05World{mails: map[string]int{}}, pg: prePG, cfgText: text}
 	if !verbose {
 		tgt.Log = c05Quiet
 	}
@@ -976,35 +1218,7 @@ func c05Setup(t *testing.T, h c05Hist, pki *c05PKI, rng *vh.Rng, verbose bool) *
 	tgt.allowSecOverride = h.cfg.override
 	tgt.relaxedREQUIRETLS = h.cfg.relaxed
 
-	// The policy list is produced by the REAL PolicyGroup.Init from a config block whose
-	// children are in a seeded order; Init is what puts them into application order.
-	var blocks []config.Node
-	if h.cfg.mtasts {
-		blocks = append(blocks, config.Node{Name: "mtasts", Children: []config.Node{{Name: "cache", Args: []string{"ram"}}}})
-	}
-	if h.cfg.preload {
-		blocks = append(blocks, config.Node{Name: "sts_preload"})
-	}
-	if h.cfg.dane {
-		blocks = append(blocks, config.Node{Name: "dane"})
-	}
-	if h.cfg.dnssec {
-		blocks = append(blocks, config.Node{Name: "dnssec"})
-	}
-	if h.cfg.local {
-		blocks = append(blocks, config.Node{Name: "local_policy", Children: []config.Node{
-			{Name: "min_tls_level", Args: []string{[]string{"none", "encrypted", "authenticated"}[h.cfg.minTLS]}},
-			{Name: "min_mx_level", Args: []string{[]string{"none", "mtasts", "dnssec"}[h.cfg.minMX]}},
-		}})
-	}
-	for i := len(blocks) - 1; i > 0; i-- {
-		j := rng.Intn(i + 1)
-		blocks[i], blocks[j] = blocks[j], blocks[i]
-	}
-	pg := &PolicyGroup{pols: map[string]module.MXAuthPolicy{}}
-	if err := pg.Init(config.NewMap(nil, config.Node{Name: "mx_auth", Children: blocks})); err != nil {
-		t.Fatal("PolicyGroup.Init: ", err)
-	}
+	pg := prePG
 	for _, p := range pg.L {
 		switch p := p.(type) {
 		case *mtastsPolicy:
@@ -1179,6 +1393,7 @@ type c05MsgObs struct {
 	errs   []string
 	victim bool // the delivery was cancelled and aborted: its recipient results are not part of the observation
 	handed *c05Flags // `via` cases: the meta-data the queue started the remote target with
+	crashFired bool  // an injected crash of a lookup happened during this message (distribution only)
 }
 
 // one delivery through the target, in the three stages its caller drives
@@ -1190,6 +1405,7 @@ type c05Delivery struct {
 	addrs    []string
 	accepted int
 	o        c05MsgObs
+	crashFired bool
 }
 
 func c05Begin(t *testing.T, env *c05Env, mi int, m c05Msg) *c05Delivery {
@@ -1215,6 +1431,103 @@ func (dl *c05Delivery) addRcpts(ctx context.Context) {
 	for i, d := range dl.m.rcpts {
 		dl.addrs[i] = fmt.Sprintf("u%d@d%d.invalid", i, d)
 		err := dl.d.AddRcpt(ctx, dl.addrs[i], smtp.RcptOptions{})
+		dl.o.rcpt[i] = c05Cls(err)
+		if err != nil {
+			dl.o.errs[i] = err.Error()
+		} else {
+			dl.accepted++
+		}
+	}
+}
+
+// ---- a TLSA discovery that crashes
+//
+// The context handed to AddRcpt reaches PrepareConn and from there every exchange of the extended resolver; the miekg
+// client reads ctx.Deadline() for every exchange, in the goroutine that makes it.  c05CrashCtx panics there when that
+// goroutine is inside discoverTLSA at the stage of the case (its own stack tells: no counting, no dependence on what other
+// goroutines do) — a crash inside the resolver library, in the place the recover() of PrepareConn exists for.  One
+// context per AddRcpt call, so the crash belongs to the MX of that recipient's domain (crash cases have one candidate).
+//
+// On the unchanged tree the future of a crashed lookup is never completed and CheckConn waits for the END OF THE CONTEXT.
+// The harness ends the context of the call (deadline exceeded) once the crash has fired and the delivery is parked in
+// daneDelivery.CheckConn -> Future.GetContext (seen in three consecutive goroutine dumps; hist cases run one delivery at a
+// time; lookups abandoned by EARLIER cases may linger for the resolver's 2 s time-out and are not waited for): the
+// call then fails temporarily; nothing else uses that context (the next call gets a new one).
+type c05CrashCtx struct {
+	*c05ManualCtx
+	stage byte
+	fired int32
+}
+
+var c05CrashFrames = map[byte]string{'a': ".CheckCNAMEAD(", 'c': ".AuthLookupCNAME(", 't': ".AuthLookupTLSA("}
+
+func (c *c05CrashCtx) Deadline() (time.Time, bool) {
+	if atomic.LoadInt32(&c.fired) == 0 {
+		buf := make([]byte, 32<<10)
+		st := string(buf[:runtime.Stack(buf, false)])
+		if strings.Contains(st, "(*daneDelivery).discoverTLSA(") && strings.Contains(st, c05CrashFrames[c.stage]) {
+			atomic.StoreInt32(&c.fired, 1)
+			panic("c05: injected crash inside the extended resolver's lookup")
+		}
+	}
+	return time.Time{}, false
+}
+
+func c05AllStacks() string {
+	buf := make([]byte, 1<<20)
+	return string(buf[:runtime.Stack(buf, true)])
+}
+
+// AddRcpt for a recipient whose MX has a crashing discovery
+func (dl *c05Delivery) addRcptCrash(t *testing.T, stage byte, addr string) (error, bool) {
+	cc := &c05CrashCtx{c05ManualCtx: c05NewManualCtx(), stage: stage}
+	done := make(chan error, 1)
+	go func() { done <- dl.d.AddRcpt(cc, addr, smtp.RcptOptions{}) }()
+	deadline := time.Now().Add(c05WaitMax)
+	parked, ended := 0, false
+	for i := 0; ; i++ {
+		select {
+		case err := <-done:
+			return err, atomic.LoadInt32(&cc.fired) == 1
+		default:
+		}
+		if !ended && atomic.LoadInt32(&cc.fired) == 1 {
+			st := c05AllStacks()
+			if strings.Contains(st, "(*daneDelivery).CheckConn(") && strings.Contains(st, "(*Future).GetContext(") {
+				parked++
+			} else {
+				parked = 0
+			}
+			if parked >= 3 {
+				cc.end(context.DeadlineExceeded)
+				ended = true
+			}
+		}
+		if time.Now().After(deadline) {
+			t.Errorf("c05 crash: AddRcpt did not return within %v", c05WaitMax)
+			cc.end(context.DeadlineExceeded)
+			return <-done, true
+		}
+		if i < 50 {
+			runtime.Gosched()
+		} else {
+			time.Sleep(300 * time.Microsecond)
+		}
+	}
+}
+
+// the recipients of a `hist` message: a context of its own for a recipient whose MX has a crashing discovery
+func (dl *c05Delivery) addRcptsHist(t *testing.T, h c05Hist) {
+	for i, d := range dl.m.rcpts {
+		dl.addrs[i] = fmt.Sprintf("u%d@d%d.invalid", i, d)
+		var err error
+		if mx := h.doms[d].mxs[0]; mx.crash != 0 {
+			var fired bool
+			err, fired = dl.addRcptCrash(t, mx.crash, dl.addrs[i])
+			dl.crashFired = dl.crashFired || fired
+		} else {
+			err = dl.d.AddRcpt(context.Background(), dl.addrs[i], smtp.RcptOptions{})
+		}
 		dl.o.rcpt[i] = c05Cls(err)
 		if err != nil {
 			dl.o.errs[i] = err.Error()
@@ -1270,8 +1583,13 @@ func c05Run(t *testing.T, h c05Hist, env *c05Env) []c05MsgObs {
 	}
 	for mi := first; mi < len(h.msgs); mi++ {
 		dl := c05Begin(t, env, mi, h.msgs[mi])
-		dl.addRcpts(ctx)
+		if h.conc == nil {
+			dl.addRcptsHist(t, h)
+		} else {
+			dl.addRcpts(ctx)
+		}
 		dl.finish(t, ctx)
+		dl.o.crashFired = dl.crashFired
 		obs = append(obs, dl.o)
 	}
 	return obs
@@ -1282,15 +1600,27 @@ func c05Run(t *testing.T, h c05Hist, env *c05Env) []c05MsgObs {
 // c05Proxy stands between the queue and the remote target of the case: it forwards every call unchanged and records what
 // the queue handed over (the meta-data at Start) and what the remote target answered per recipient.
 type c05Proxy struct {
-	inner module.DeliveryTarget
-	mu    sync.Mutex
-	runs  map[int]*c05ProxyRun // by message index (sender address)
+	mu      sync.Mutex
+	cond    *sync.Cond
+	inner   module.DeliveryTarget
+	runs    map[[2]int]*c05ProxyRun // by message index (sender address) and attempt
+	started map[int]int             // attempts of the message that have arrived so far
+	// `retry` cases: number of attempts of the message that may go on; a further attempt waits in Start until the
+	// harness has changed the world and lets it through (nil: nothing is held)
+	allow map[int]int
+}
+
+func c05NewProxy(inner module.DeliveryTarget) *c05Proxy {
+	p := &c05Proxy{inner: inner, runs: map[[2]int]*c05ProxyRun{}, started: map[int]int{}}
+	p.cond = sync.NewCond(&p.mu)
+	return p
 }
 
 type c05ProxyRun struct {
 	mu      sync.Mutex
 	started bool
 	handed  c05Flags         // the meta-data the remote target was started with
+	order   []string         // recipients in the order of the AddRcpt calls
 	rcpt    map[string]error // AddRcpt results
 	status  map[string]error // BodyNonAtomic statuses
 	hasSt   map[string]bool
@@ -1298,15 +1628,34 @@ type c05ProxyRun struct {
 	over    bool
 }
 
-func (p *c05Proxy) run(mi int) *c05ProxyRun {
-	p.mu.Lock()
-	defer p.mu.Unlock()
-	r := p.runs[mi]
+func (p *c05Proxy) runLocked(mi, att int) *c05ProxyRun {
+	r := p.runs[[2]int{mi, att}]
 	if r == nil {
 		r = &c05ProxyRun{rcpt: map[string]error{}, status: map[string]error{}, hasSt: map[string]bool{}, done: make(chan struct{})}
-		p.runs[mi] = r
+		p.runs[[2]int{mi, att}] = r
 	}
 	return r
+}
+
+func (p *c05Proxy) run(mi, att int) *c05ProxyRun {
+	p.mu.Lock()
+	defer p.mu.Unlock()
+	return p.runLocked(mi, att)
+}
+
+// letThrough allows one more attempt of message mi, to be made on target inner
+func (p *c05Proxy) letThrough(mi int, inner module.DeliveryTarget) {
+	p.mu.Lock()
+	p.inner = inner
+	p.allow[mi]++
+	p.mu.Unlock()
+	p.cond.Broadcast()
+}
+
+func (p *c05Proxy) arrived(mi int) int {
+	p.mu.Lock()
+	defer p.mu.Unlock()
+	return p.started[mi]
 }
 
 func (r *c05ProxyRun) end() {
@@ -1319,12 +1668,21 @@ func (r *c05ProxyRun) end() {
 }
 
 func (p *c05Proxy) Start(ctx context.Context, meta *module.MsgMetadata, from string) (module.Delivery, error) {
-	r := p.run(c05MsgOfSender(from))
+	mi := c05MsgOfSender(from)
+	p.mu.Lock()
+	att := p.started[mi]
+	p.started[mi]++
+	for p.allow != nil && p.allow[mi] <= att {
+		p.cond.Wait()
+	}
+	inner := p.inner
+	r := p.runLocked(mi, att)
+	p.mu.Unlock()
 	r.mu.Lock()
 	r.started = true
 	r.handed = c05Flags{meta.SMTPOpts.RequireTLS, meta.TLSRequireOverride, meta.Quarantine, meta.SMTPOpts.UTF8}
 	r.mu.Unlock()
-	d, err := p.inner.Start(ctx, meta, from)
+	d, err := inner.Start(ctx, meta, from)
 	if err != nil {
 		r.end()
 		return nil, err
@@ -1340,6 +1698,7 @@ type c05ProxyDelivery struct {
 func (pd *c05ProxyDelivery) AddRcpt(ctx context.Context, to string, opts smtp.RcptOptions) error {
 	err := pd.d.AddRcpt(ctx, to, opts)
 	pd.r.mu.Lock()
+	pd.r.order = append(pd.r.order, to)
 	pd.r.rcpt[to] = err
 	pd.r.mu.Unlock()
 	return err
@@ -1457,107 +1816,342 @@ func c05Front() *msgpipeline.MsgPipeline {
 	return c05Pipe
 }
 
-func c05RunVia(t *testing.T, h c05Hist, env *c05Env) []c05MsgObs {
-	pipe := c05Front()
-	dir, err := os.MkdirTemp("", "c05q")
-	if err != nil {
-		t.Fatal(err)
-	}
-	defer os.RemoveAll(dir)
+// a queue instance on the spool directory dir, in front of the proxy of the running case
+func c05NewQueue(t *testing.T, dir string, maxTries int, before func(q *queue.Queue)) *queue.Queue {
+	c05Front() // registers the instances the configuration names
 	mod, err := queue.NewQueue("target.queue", "verif_c05_q", nil, nil)
 	if err != nil {
 		t.Fatal(err)
 	}
 	q := mod.(*queue.Queue)
 	q.Log = log.Logger{Out: log.NopOutput{}, Name: "c05queue"}
-	proxy := &c05Proxy{inner: env.tgt, runs: map[int]*c05ProxyRun{}}
-	c05Cur.proxy, c05Cur.q = proxy, q
+	if before != nil {
+		before(q)
+	}
+	c05Cur.q = q
 	if err := q.Init(config.NewMap(map[string]interface{}{"hostname": "c05.invalid"}, config.Node{Children: []config.Node{
 		{Name: "target", Args: []string{"&verif_c05_remote"}},
 		{Name: "location", Args: []string{dir}},
-		{Name: "max_tries", Args: []string{"1"}},
+		{Name: "max_tries", Args: []string{strconv.Itoa(maxTries)}},
 	}})); err != nil {
 		t.Fatal("queue Init: ", err)
 	}
+	return q
+}
+
+// the unexported delays of the queue (initialRetryTime, postInitDelay): the harness is not in package queue
+func c05SetQueueDelay(q *queue.Queue, field string, d time.Duration) {
+	f := reflect.ValueOf(q).Elem().FieldByName(field)
+	if !f.IsValid() || f.Kind() != reflect.Int64 {
+		panic("c05: queue.Queue." + field + " not found")
+	}
+	*(*time.Duration)(unsafe.Pointer(f.UnsafeAddr())) = d
+}
+
+// one message handed to the front (the queue, or msgpipeline in front of it) up to the end of the body stage
+type c05Submitted struct {
+	d     module.Delivery
+	addrs []string
+}
+
+func c05ViaSubmit(t *testing.T, h c05Hist, q *queue.Queue, mi int, m c05Msg) c05Submitted {
+	ctx := context.Background()
+	in, fin := m.via.init, m.final()
+	meta := &module.MsgMetadata{
+		ID:                 fmt.Sprintf("c05msg%d", mi),
+		OriginalFrom:       c05Sender(mi),
+		DontTraceSender:    true,
+		SMTPOpts:           smtp.MailOptions{RequireTLS: in.requireTLS, UTF8: in.utf8},
+		TLSRequireOverride: in.tlsNo,
+		Quarantine:         in.quarantine,
+	}
+	var src module.DeliveryTarget = q
+	if h.front == 'p' {
+		src = c05Front()
+		c05Cur.stage = m.via.stage
+	}
+	d, err := src.Start(ctx, meta, c05Sender(mi))
+	if err != nil {
+		t.Fatal("front Start: ", err)
+	}
+	addrs := make([]string, len(m.rcpts))
+	for i, dom := range m.rcpts {
+		addrs[i] = fmt.Sprintf("u%d@d%d.invalid", i, dom)
+		if err := d.AddRcpt(ctx, addrs[i], smtp.RcptOptions{}); err != nil {
+			t.Fatal("front AddRcpt: ", err)
+		}
+	}
+	// the body stage: the source updates ITS meta-data object (an SMTP endpoint does after it has read the header:
+	// TLS-Required; msgpipeline does when it applies the check results: Quarantine — front p leaves that to it)
+	meta.SMTPOpts.RequireTLS, meta.SMTPOpts.UTF8, meta.TLSRequireOverride = fin.requireTLS, fin.utf8, fin.tlsNo
+	if h.front == 'q' {
+		meta.Quarantine = fin.quarantine
+	}
+	hdr := textproto.Header{}
+	hdr.Add("Subject", "c05")
+	if err := d.Body(ctx, hdr, buffer.MemoryBuffer{Slice: []byte("secret content\r\n")}); err != nil {
+		t.Fatal("front Body: ", err)
+	}
+	if got := (c05Flags{meta.SMTPOpts.RequireTLS, meta.TLSRequireOverride, meta.Quarantine, meta.SMTPOpts.UTF8}); got != fin {
+		t.Fatalf("c05 via: the source's meta-data after the body stage is %s, the op line says %s: %s", got, fin, h.Op())
+	}
+	return c05Submitted{d: d, addrs: addrs}
+}
+
+// waits for the end of an attempt and reads what the proxy recorded.  all: every recipient of the message is listed
+// (`notried` if the queue did not hand it to the target); otherwise only the ones of this attempt (a retry).
+func c05ViaCollect(t *testing.T, h c05Hist, r *c05ProxyRun, mi int, addrs []string, all bool) (c05MsgObs, []int, bool) {
+	select {
+	case <-r.done:
+	case <-time.After(c05WaitMax):
+		t.Errorf("c05 via: the queue did not attempt message %d within %v: %s", mi, c05WaitMax, h.Op())
+		return c05MsgObs{}, nil, false
+	}
+	var o c05MsgObs
+	var idx []int
+	r.mu.Lock()
+	hd := r.handed
+	o.handed = &hd
+	for i, a := range addrs {
+		e, seen := r.rcpt[a]
+		if !seen && !all {
+			continue
+		}
+		res := ""
+		switch {
+		case !seen:
+			res = "notried"
+		case e == nil && r.hasSt[a]:
+			e = r.status[a]
+			res = c05Cls(e)
+		case e == nil:
+			res = "nostatus"
+		default:
+			res = c05Cls(e)
+		}
+		es := ""
+		if e != nil {
+			es = e.Error()
+		}
+		o.rcpt, o.errs, idx = append(o.rcpt, res), append(o.errs, es), append(idx, i)
+	}
+	r.mu.Unlock()
+	return o, idx, true
+}
+
+func c05RunVia(t *testing.T, h c05Hist, env *c05Env) []c05MsgObs {
+	dir, err := os.MkdirTemp("", "c05q")
+	if err != nil {
+		t.Fatal(err)
+	}
+	defer os.RemoveAll(dir)
+	proxy := c05NewProxy(env.tgt)
+	c05Cur.proxy = proxy
+	q := c05NewQueue(t, dir, 1, nil)
 	defer q.Close()
 
-	ctx := context.Background()
 	var obs []c05MsgObs
 	for mi, m := range h.msgs {
-		in, fin := m.via.init, m.final()
-		meta := &module.MsgMetadata{
-			ID:                 fmt.Sprintf("c05msg%d", mi),
-			OriginalFrom:       c05Sender(mi),
-			DontTraceSender:    true,
-			SMTPOpts:           smtp.MailOptions{RequireTLS: in.requireTLS, UTF8: in.utf8},
-			TLSRequireOverride: in.tlsNo,
-			Quarantine:         in.quarantine,
-		}
-		var src module.DeliveryTarget = q
-		if h.front == 'p' {
-			src = pipe
-			c05Cur.stage = m.via.stage
-		}
-		d, err := src.Start(ctx, meta, c05Sender(mi))
-		if err != nil {
-			t.Fatal("front Start: ", err)
-		}
-		addrs := make([]string, len(m.rcpts))
-		for i, dom := range m.rcpts {
-			addrs[i] = fmt.Sprintf("u%d@d%d.invalid", i, dom)
-			if err := d.AddRcpt(ctx, addrs[i], smtp.RcptOptions{}); err != nil {
-				t.Fatal("front AddRcpt: ", err)
-			}
-		}
-		// the body stage: the source updates ITS meta-data object (an SMTP endpoint does after it has read the header:
-		// TLS-Required; msgpipeline does when it applies the check results: Quarantine — front p leaves that to it)
-		meta.SMTPOpts.RequireTLS, meta.SMTPOpts.UTF8, meta.TLSRequireOverride = fin.requireTLS, fin.utf8, fin.tlsNo
-		if h.front == 'q' {
-			meta.Quarantine = fin.quarantine
-		}
-		hdr := textproto.Header{}
-		hdr.Add("Subject", "c05")
-		if err := d.Body(ctx, hdr, buffer.MemoryBuffer{Slice: []byte("secret content\r\n")}); err != nil {
-			t.Fatal("front Body: ", err)
-		}
-		if got := (c05Flags{meta.SMTPOpts.RequireTLS, meta.TLSRequireOverride, meta.Quarantine, meta.SMTPOpts.UTF8}); got != fin {
-			t.Fatalf("c05 via: the source's meta-data after the body stage is %s, the op line says %s: %s", got, fin, h.Op())
-		}
-		if err := d.Commit(ctx); err != nil {
+		sub := c05ViaSubmit(t, h, q, mi, m)
+		if err := sub.d.Commit(context.Background()); err != nil {
 			t.Fatal("front Commit: ", err)
 		}
 		// the queue attempts the delivery on its own goroutine: wait until the attempt is over
-		r := proxy.run(mi)
-		o := c05MsgObs{rcpt: make([]string, len(m.rcpts)), errs: make([]string, len(m.rcpts))}
-		select {
-		case <-r.done:
-		case <-time.After(c05WaitMax):
-			t.Errorf("c05 via: the queue did not attempt message %d within %v: %s", mi, c05WaitMax, h.Op())
+		o, _, ok := c05ViaCollect(t, h, proxy.run(mi, 0), mi, sub.addrs, true)
+		if !ok {
 			return nil
 		}
-		r.mu.Lock()
-		o.handed = &r.handed
-		for i, a := range addrs {
-			e, seen := r.rcpt[a]
-			switch {
-			case !seen:
-				o.rcpt[i] = "notried"
-			case e == nil && r.hasSt[a]:
-				e = r.status[a]
-				o.rcpt[i] = c05Cls(e)
-			case e == nil:
-				o.rcpt[i] = "nostatus"
-			default:
-				o.rcpt[i] = c05Cls(e)
-			}
-			if e != nil {
-				o.errs[i] = e.Error()
-			}
-		}
-		r.mu.Unlock()
 		obs = append(obs, o)
 	}
 	return obs
+}
+
+// c05RunRetry drives a `retry` case: the messages go through the queue as in a `via` case and are attempted in the world
+// h.doms; then the world changes to h.domsB (all servers, the DNS content and the remote target are replaced: a fresh
+// connection pool) and the recipients that failed temporarily are attempted again — mode r: by the same queue instance
+// from its spool (initialRetryTime = 0, the attempt waits in the proxy's Start until the world has changed); mode s: the
+// queue is closed after the first attempts and a new instance is started on the same spool (no delays); mode b: the
+// queue is closed BEFORE the first attempt (between Body and Commit), the new instance makes the first attempt from the
+// spool in world B.  Attempts in world B are let through one message after the other.  Every wait is for an observable
+// fact.  Result: per-message observations and server events of the two phases.
+func c05RunRetry(t *testing.T, out *vh.Out, h c05Hist, pki *c05PKI, rng *vh.Rng, verbose bool) (ok bool, refused bool, obs [2][]c05MsgObs, idx [2][][]int, events [2][]c05Event) {
+	hA := h
+	envA := c05Setup(t, hA, pki, rng, verbose)
+	c05ConfigStats(out, h, envA)
+	if envA.refused {
+		return true, true, obs, idx, events
+	}
+	c05ConfigMonitor(out, h, envA)
+	dir, err := os.MkdirTemp("", "c05q")
+	if err != nil {
+		t.Fatal(err)
+	}
+	defer os.RemoveAll(dir)
+	proxy := c05NewProxy(envA.tgt)
+	proxy.allow = map[int]int{}
+	c05Cur.proxy = proxy
+	first := 1 // attempts in world A
+	if h.retry == 'b' {
+		first = 0
+	}
+	for mi := range h.msgs {
+		proxy.allow[mi] = first
+	}
+	q := c05NewQueue(t, dir, 2, nil)
+	if h.retry == 'r' {
+		c05SetQueueDelay(q, "initialRetryTime", 0)
+	}
+	closeA := func() []c05Event {
+		envA.Close()
+		envA.world.mu.Lock()
+		defer envA.world.mu.Unlock()
+		return append([]c05Event(nil), envA.world.events...)
+	}
+	n := len(h.msgs)
+	obs[0], obs[1] = make([]c05MsgObs, n), make([]c05MsgObs, n)
+	idx[0], idx[1] = make([][]int, n), make([][]int, n)
+	subs := make([]c05Submitted, n)
+	for mi, m := range h.msgs {
+		subs[mi] = c05ViaSubmit(t, h, q, mi, m)
+		if h.retry == 'b' {
+			continue
+		}
+		if err := subs[mi].d.Commit(context.Background()); err != nil {
+			t.Fatal("front Commit: ", err)
+		}
+		o, ix, ok := c05ViaCollect(t, h, proxy.run(mi, 0), mi, subs[mi].addrs, true)
+		if !ok {
+			q.Close()
+			closeA()
+			return false, false, obs, idx, events
+		}
+		obs[0][mi], idx[0][mi] = o, ix
+	}
+	if h.retry == 'b' {
+		// the process goes down after the messages were accepted (spooled) and before any attempt
+		q.Close()
+		for mi := range h.msgs {
+			if err := subs[mi].d.Commit(context.Background()); err != nil {
+				t.Fatal("front Commit: ", err)
+			}
+		}
+	}
+	if h.retry == 's' {
+		q.Close() // waits for the attempts' bookkeeping (spool update) to finish
+	}
+	events[0] = closeA()
+
+	// the world changes
+	hB := h
+	hB.doms = h.domsB
+	envB := c05Setup(t, hB, pki, rng, verbose)
+	if envB.refused {
+		t.Fatalf("c05 retry: the configuration was accepted, then refused: %s", h.Op())
+	}
+	defer envB.Close()
+	q2 := q
+	if h.retry != 'r' {
+		tries := 2
+		if h.retry == 'b' {
+			tries = 1
+		}
+		q2 = c05NewQueue(t, dir, tries, func(q *queue.Queue) {
+			c05SetQueueDelay(q, "initialRetryTime", 0)
+			c05SetQueueDelay(q, "postInitDelay", 0)
+		})
+	}
+	defer q2.Close()
+	for mi := range h.msgs {
+		expect := h.retry == 'b'
+		for _, r := range obs[0][mi].rcpt {
+			expect = expect || r == "temp"
+		}
+		if !expect {
+			continue
+		}
+		att := first
+		// the attempt has arrived at the proxy (from the spool), now it may go on — in the new world
+		if !c05WaitFor(func() bool { return proxy.arrived(mi) > att }) {
+			t.Errorf("c05 retry: the queue did not attempt message %d again within %v: %s", mi, c05WaitMax, h.Op())
+			return false, false, obs, idx, events
+		}
+		proxy.letThrough(mi, envB.tgt)
+		o, ix, ok := c05ViaCollect(t, h, proxy.run(mi, att), mi, subs[mi].addrs, false)
+		if !ok {
+			return false, false, obs, idx, events
+		}
+		obs[1][mi], idx[1][mi] = o, ix
+	}
+	q2.Close()
+	envB.Close()
+	envB.world.mu.Lock()
+	events[1] = append([]c05Event(nil), envB.world.events...)
+	envB.world.mu.Unlock()
+	return true, false, obs, idx, events
+}
+
+// the view of one phase of a `retry` case as a history of its own: the messages with the recipients attempted in it
+func c05PhaseView(h c05Hist, phase int, idx [][]int) c05Hist {
+	v := h
+	v.opLine = h.Op()
+	if phase == 1 {
+		v.doms = h.domsB
+	}
+	v.msgs = nil
+	for mi, m := range h.msgs {
+		m2 := m
+		m2.rcpts = nil
+		for _, i := range idx[mi] {
+			m2.rcpts = append(m2.rcpts, m.rcpts[i])
+		}
+		v.msgs = append(v.msgs, m2)
+	}
+	return v
+}
+
+func c05OneRetryCase(t *testing.T, out *vh.Out, pki *c05PKI, h c05Hist, rng *vh.Rng, verbose bool) {
+	op := h.Op()
+	ok, refused, obs, idx, events := c05RunRetry(t, out, h, pki, rng, verbose)
+	if refused {
+		out.Corr(op, "refused")
+		return
+	}
+	if !ok {
+		return
+	}
+	var views [2]c05Hist
+	var lines [2][]string
+	for ph := 0; ph < 2; ph++ {
+		views[ph] = c05PhaseView(h, ph, idx[ph])
+		lines[ph] = strings.Split(c05Observation(views[ph], obs[ph], events[ph]), " | ")
+		c05Monitor(out, views[ph], obs[ph], events[ph])
+		c05DeliveryStats(out, views[ph], events[ph])
+	}
+	var parts []string
+	for mi := range h.msgs {
+		a, b := lines[0][mi], lines[1][mi]
+		if len(idx[0][mi]) == 0 {
+			a = "-"
+		}
+		if len(idx[1][mi]) == 0 {
+			b = "-"
+		}
+		parts = append(parts, a+" >> "+b)
+		out.Stat(fmt.Sprintf("c05.retry.mode=%c.front=%c.second-attempt=%s", h.retry, h.front, c05b(b != "-")))
+		if b != "-" {
+			m := h.msgs[mi]
+			got := false
+			for _, e := range events[1] {
+				got = got || (e.msg == mi && e.kind == "data")
+			}
+			out.Stat(fmt.Sprintf("c05.retry.from-spool.requiretls=%s.tls-required-no=%s.quarantine=%s.content-sent=%s", c05b(m.requireTLS), c05b(m.tlsNo), c05b(m.quarantine != 0), c05b(got)))
+			for _, r := range obs[1][mi].rcpt {
+				out.Stat("c05.retry.from-spool.rcpt=" + r)
+			}
+		}
+	}
+	out.Corr(op, strings.Join(parts, " | "))
+	out.Stat(fmt.Sprintf("c05.msgs=%d", len(h.msgs)))
 }
 
 // a context whose end the harness decides: cancelled, or "deadline exceeded" without any clock
@@ -1773,6 +2367,16 @@ func c05Governing(m c05MX) (string, byte) {
 	}
 	if m.fam == 'x' {
 		return "none", 0 // no address records: nothing to connect to, no TLSA lookup (RFC 7672 2.2.2: the MX host is skipped)
+	}
+	// A lookup that CRASHES has not answered: whatever it was needed for is not known — the discovery has failed as soon
+	// as a lookup it needs is one that crashes (the address lookups are always needed: they decide whether DANE applies).
+	switch m.crash {
+	case 'a':
+		return "fail", 0
+	case 'c':
+		m.cnameErr = true
+	case 't':
+		m.tlsa, m.tlsaI = 'f', 'f'
 	}
 	switch m.alias {
 	case 0:
@@ -2152,6 +2756,24 @@ func c05GenHist(r *vh.Rng) c05Hist {
 			c.minMX = 0
 		}
 	}
+	if c.local && r.Chance(30) {
+		// the words written out (always in a spelling the documentation gives), a directive left out (its default applies)
+		if r.Chance(25) {
+			c.minTLS = c05DefaultMinTLS
+		}
+		if r.Chance(25) {
+			c.minMX = c05DefaultMinMX
+		}
+		c.words = &c05Words{tls: c05TLSWords[c.minTLS], mx: c05MXWords[c.minMX]}
+		c.words.tlsOmit = c.minTLS == c05DefaultMinTLS && r.Chance(60)
+		c.words.mxOmit = c.minMX == c05DefaultMinMX && r.Chance(60)
+		if c.words.tlsOmit {
+			c.words.tls = ""
+		}
+		if c.words.mxOmit {
+			c.words.mx = ""
+		}
+	}
 	c.override, c.relaxed = r.Chance(65), r.Chance(50)
 	c.reuse = []int{10, 10, 10, 1, 0}[r.Intn(5)]
 	sts := "antee"
@@ -2192,6 +2814,124 @@ func c05GenHist(r *vh.Rng) c05Hist {
 	n := 1 + r.Intn(3)
 	for i := 0; i < n; i++ {
 		h.msgs = append(h.msgs, c05GenMsg(r))
+	}
+	return h
+}
+
+// a world in which lookups of TLSA discovery CRASH: one candidate per domain, DANE mostly configured, servers that
+// take mail (a discovery that "found nothing" would let it through), the stage mostly one that discovery reaches
+func c05CrashWorld(r *vh.Rng, h *c05Hist) {
+	h.doms[0].mxs = h.doms[0].mxs[:1]
+	if r.Chance(90) {
+		h.cfg.dane = true
+	}
+	some := false
+	for di := range h.doms {
+		m := &h.doms[di].mxs[0]
+		if di == 1 && some && r.Chance(40) {
+			continue
+		}
+		some = true
+		m.crash = "aattc"[r.Intn(5)]
+		m.up = true
+		if m.starttls == 'c' || m.starttls == 'h' {
+			m.starttls = "os"[r.Intn(2)]
+		}
+		switch m.crash {
+		case 't':
+			if r.Chance(80) {
+				m.aAD = true
+			}
+		case 'c':
+			if r.Chance(75) {
+				// an alias whose address answer is not authenticated as a whole: the CNAME-type query is made
+				if m.alias == 0 {
+					m.alias, m.tlsaI, m.tlsaIAD, m.cnameErr = 's', "nem"[r.Intn(3)], r.Chance(75), false
+				}
+				if m.alias == 's' {
+					m.aAD = false
+				}
+			}
+		}
+	}
+}
+
+// another spelling of a documented word: Capitalised, UPPER, mixed case, junk around it (what a quoted argument can
+// carry: blanks, a tab, punctuation, single quotes), or combinations
+func c05Respell(r *vh.Rng, w string) string {
+	b := []byte(w)
+	switch r.Intn(6) {
+	case 0:
+		b[0] -= 'a' - 'A'
+	case 1:
+		b = []byte(strings.ToUpper(w))
+	case 2, 3:
+		for changed := false; !changed; {
+			for i := range b {
+				if b[i] >= 'a' && b[i] <= 'z' && r.Chance(40) {
+					b[i] -= 'a' - 'A'
+					changed = true
+				}
+			}
+		}
+	case 4:
+		if r.Chance(40) {
+			b[0] -= 'a' - 'A'
+		}
+		fallthrough
+	default:
+		pre := []string{"", "", " ", "\t", "'", "-", "="}[r.Intn(7)]
+		post := []string{"", " ", ";", ",", ".", "'", ":", " #"}[r.Intn(8)]
+		if pre == "" && post == "" {
+			post = " "
+		}
+		b = []byte(pre + string(b) + post)
+	}
+	return string(b)
+}
+
+// a configuration whose minimum levels are NOT written the way the documentation writes them, on a world where the
+// difference shows (servers that take mail, often below the documented minimum)
+func c05GenSpelled(r *vh.Rng) c05Hist {
+	h := c05GenHist(r)
+	c := &h.cfg
+	c.local = true
+	c.minTLS, c.minMX = []int{2, 2, 2, 1, 1, 0}[r.Intn(6)], []int{0, 0, 1, 2, 2, 1}[r.Intn(6)]
+	if c.minMX == 1 {
+		c.mtasts = true
+	}
+	if c.minMX == 2 {
+		c.dnssec = true
+	}
+	w := &c05Words{tls: c05TLSWords[c.minTLS], mx: c05MXWords[c.minMX]}
+	switch r.Intn(4) {
+	case 0:
+		w.mx = c05Respell(r, w.mx)
+	case 1:
+		w.tls, w.mx = c05Respell(r, w.tls), c05Respell(r, w.mx)
+	default:
+		w.tls = c05Respell(r, w.tls)
+	}
+	if w.mx == "none" && r.Chance(50) {
+		w.mx, w.mxOmit = "", true
+	}
+	if w.tls == "encrypted" && r.Chance(50) {
+		w.tls, w.tlsOmit = "", true
+	}
+	c.words = w
+	for di := range h.doms {
+		for i := range h.doms[di].mxs {
+			m := &h.doms[di].mxs[i]
+			m.up = true
+			if m.starttls == 'c' {
+				m.starttls = 's'
+			}
+		}
+	}
+	for i := range h.msgs {
+		if r.Chance(70) {
+			h.msgs[i].tlsNo, h.msgs[i].quarantine = false, 0
+		}
 	}
 	return h
 }
@@ -2365,6 +3105,80 @@ func c05GenVia(r *vh.Rng) c05Hist {
 	return h
 }
 
+// Several attempts: the messages go through the queue, the first attempt mostly fails temporarily (MX down, STARTTLS
+// command answered 454, or whatever a random world does), then the world is another one — servers that take mail, often
+// in plaintext / with a certificate that does not verify / behind an unsigned MX RRset — and the queue tries again from
+// its spool (same instance, restarted instance, instance restarted before the first attempt).
+func c05GenRetry(r *vh.Rng) c05Hist {
+	h := c05GenVia(r)
+	h.retry = "rrsssbb"[r.Intn(7)]
+	cp := func(d [2]c05Dom) [2]c05Dom {
+		for i := range d {
+			d[i].mxs = append([]c05MX(nil), d[i].mxs...)
+		}
+		return d
+	}
+	h.domsB = cp(h.doms)
+	for di := range h.domsB {
+		for i := range h.domsB[di].mxs {
+			m := &h.domsB[di].mxs[i]
+			if r.Chance(85) {
+				m.up = true
+			}
+			if m.starttls == 'c' && r.Chance(70) {
+				m.starttls = "os"[r.Intn(2)]
+			}
+		}
+	}
+	switch k := r.Intn(10); {
+	case k < 6: // the same hosts, out of order for a while
+		h.doms = cp(h.domsB)
+		for di := range h.doms {
+			for i := range h.doms[di].mxs {
+				m := &h.doms[di].mxs[i]
+				switch r.Intn(5) {
+				case 0, 1, 2:
+					m.up = false
+				case 3:
+					m.up, m.starttls = true, 'c'
+				}
+			}
+		}
+	case k < 8: // the hosts were fine (authenticated TLS, signed zone) when the message came in
+		h.doms = cp(h.domsB)
+		for di := range h.doms {
+			h.doms[di].mxAD = true
+			for i := range h.doms[di].mxs {
+				m := &h.doms[di].mxs[i]
+				m.up, m.starttls, m.cert, m.stsMatch, m.reqtls = r.Chance(40), 'o', 'v', true, true
+			}
+		}
+	default: // an unrelated world (h.doms as generated)
+	}
+	for i := range h.msgs {
+		m := &h.msgs[i]
+		if r.Chance(45) { // REQUIRETLS when the body stage ends
+			m.requireTLS = true
+			if r.Chance(70) {
+				m.tlsNo = false
+			}
+			if r.Chance(80) {
+				m.quarantine = 0
+				m.via.init.quarantine, m.via.stage = false, 0
+			}
+		}
+		if m.quarantine != 0 && h.retry != 'b' && r.Chance(70) { // refused for good at the first attempt: nothing to retry
+			m.quarantine = 0
+			m.via.init.quarantine, m.via.stage = false, 0
+		}
+	}
+	if h.cfg.words != nil || r.Chance(50) {
+		// an MX level for REQUIRETLS to ask for
+		h.cfg.dnssec = true
+	}
+	return h
+}
+
 // all histories of 1..3 messages over the given message kinds, on a fixed world
 func c05EnumHistories(base c05Hist, kinds []c05Msg, maxLen int) []c05Hist {
 	var out []c05Hist
@@ -2425,7 +3239,35 @@ func c05SystematicBases() []c05Hist {
 // histories that are run in every tier and for every seed: the shortest replays of the three
 // defects found on the unchanged tree (each is a VIOLATION again if its fix is reverted).
 func c05FixedOps() []string {
+	ops := c05FixedOpsRaw()
+	for i, op := range ops {
+		// {word}: the hex form of a configuration word
+		for {
+			a := strings.IndexByte(op, '{')
+			if a < 0 {
+				break
+			}
+			b := a + strings.IndexByte(op[a:], '}')
+			op = op[:a] + vh.HexBytes([]byte(op[a+1:b])) + op[b+1:]
+		}
+		ops[i] = op
+	}
+	return ops
+}
+
+func c05FixedOpsRaw() []string {
 	return []string{
+		// THE CONFIGURATION WORDS.  min_tls_level / min_mx_level not written in lower case (or with something around the
+		// word): refused at start-up, or enforced as the documented level — never accepted and ignored.  Worlds where the
+		// difference shows: plaintext-only / self-signed MX, MX RRset not signed, MX not listed in the MTA-STS policy
+		"C05 hist 0000.20~{Authenticated}~{none}.10.10 0a:1.1.s.v.0.0.0.n.0.0 0a:3.1.o.u.0.0.0.n.0.0 000:0,1",
+		"C05 hist 0001.02~{none}~{DNSSEC}.10.10 0a:1.1.o.v.0.0.0.n.0.0 0a:3.1.o.v.0.0.0.n.0.0 000:0/000:1",
+		"C05 hist 1000.11~{ENCRYPTED}~{MtaSts}.10.10 0e:1.1.s.v.1.0.0.n.0.0 0a:3.1.o.v.0.0.0.n.0.0 000:0,1",
+		"C05 hist 0000.20~{authenticated }~_.10.10 0a:1.1.o.w.0.0.0.n.0.0 0a:3.1.s.v.0.0.0.n.0.0 000:0,1",
+		"C05 hist 0011.22~{AUTHENTICATED}~{Dnssec}.00.1 0a:1.1.o.u.0.1.1.m.0.0 0a:3.1.h.v.0.0.0.n.0.0 000:0,1/100:1",
+		// … written as documented (quoted or not), or left out: accepted, the documented level / the default is enforced
+		"C05 hist 0000.10~_~_.10.10 0a:1.1.s.v.0.0.0.n.0.0 0a:3.1.o.u.0.0.0.n.0.0 000:0,1",
+		"C05 hist 0001.22~{authenticated}~{dnssec}.10.10 1a:1.1.o.u.0.0.0.n.0.0 0a:3.1.o.v.0.0.0.n.0.0 000:0,1",
 		// a connection opened for a TLS-Required: No message is pooled and reused
 		"C05 hist 1011.21.11.10 1e:1.1.s.v.0.1.1.n.0.0 0a:3.1.s.v.0.0.0.n.0.0 010:0/000:0",
 		"C05 hist 0010.-.10.10 0a:1.1.o.v.0.1.1.f.0.0 0a:3.1.o.u.0.1.1.f.0.0 010:0/000:0",
@@ -2496,6 +3338,28 @@ func c05FixedOps() []string {
 		"C05 via q 0001.-.10.10 1a:1.1.s.v.0.0.0.n.0.0 1a:3.1.o.v.0.0.0.n.1.0 0000>1000:0,1/1000>0000:0",
 		"C05 via p 1011.21.11.10 1e:1.1.s.v.0.1.1.n.0.0 0a:3.1.o.v.0.0.0.n.0.0 0000>0100:0/0100>0000:0",
 		"C05 via q 0000.-.10.10 0a:1.1.o.v.0.0.0.n.0.0 0a:3.1.o.v.0.0.0.n.0.0 0000>0001:0/0001>0000:1",
+		// A LOOKUP OF TLSA DISCOVERY CRASHES (panic inside the extended resolver, recovered by PrepareConn): nothing is known
+		// about the TLSA records — deferred, never "no records".  At the address lookups (plaintext-only MX whose real RRset
+		// pins its certificate), at the TLSA lookup (self-signed MX, mismatching RRset), at the CNAME-type query of an alias;
+		// a stage discovery does not reach (unsigned address RRset: no TLSA lookup) changes nothing; strong policies with an
+		// override message first and REQUIRETLS; alias: the lookup at the canonical name crashes
+		"C05 hist 0010.-.10.10 0a:1.1.s.v.0.1.1.e.0.0a 0a:3.1.o.u.0.1.1.m.0.0t 000:0,1",
+		"C05 hist 0010.20.10.10 0a:1.1.o.u.0.0.1.n.0.0c.se10 0a:3.1.o.v.0.0.0.n.0.0t 000:0,1/100:0",
+		"C05 hist 1011.21.11.10 1e:1.1.o.v.1.1.1.e.1.0t 0a:3.1.o.v.0.1.1.n.0.0a 010:0/000:0,0/100:0,1",
+		"C05 hist 0010.-.10.10 0a:1.1.s.v.0.1.1.n.0.0t.sn10 0a:3.1.o.w.0.1.0.e.0.0a.it10 000:0,1",
+		// SEVERAL ATTEMPTS.  A REQUIRETLS message whose first attempt fails temporarily (MX down / STARTTLS answered 454) is
+		// tried again from the spool when the MX offers plaintext only / a certificate that does not verify / sits behind
+		// an unsigned MX RRset: refused again, never sent.  Retry by the same queue instance, after a restart, restart
+		// before the first attempt; the other domain is delivered to at the first attempt
+		"C05 retry qr 0001.-.10.10 1a:1.0.o.v.0.0.0.n.1.0 1a:3.1.o.v.0.0.0.n.1.0 1a:1.1.s.v.0.0.0.n.0.0 1a:3.1.o.v.0.0.0.n.1.0 0000>1000:0,1",
+		"C05 retry qs 0001.-.10.10 1a:1.1.c.v.0.0.0.n.1.0 1a:3.0.o.v.0.0.0.n.1.0 1a:1.1.o.u.0.0.0.n.1.0 1a:3.1.o.w.0.0.0.n.1.0 1000>1000:0,1",
+		"C05 retry pb 0001.-.10.10 1a:1.0.o.v.0.0.0.n.1.0 1a:3.0.o.v.0.0.0.n.1.0 0a:1.1.o.v.0.0.0.n.1.0 1a:3.1.s.v.0.0.0.n.1.0 0000>1000:0,1/0000>0010@b:0",
+		"C05 retry ps 1001.10.11.10 1e:1.0.o.v.1.0.0.n.1.0 1a:3.0.o.v.0.0.0.n.1.0 0e:1.1.o.v.0.0.0.n.0.0 0a:3.1.h.v.0.0.0.n.0.0 0100>1000:0/0000>0000:1,0",
+		// … the retried REQUIRETLS message does not take the connection an ordinary retried message has just pooled
+		// (MX RRset not signed any more); TLS-Required: No and SMTPUTF8 come back from the spool as well
+		"C05 retry qr 0001.-.11.10 1a:1.0.o.v.0.0.0.n.1.0 1a:3.0.o.v.0.0.0.n.1.0 0a:1.1.o.v.0.0.0.n.1.0 0a:3.1.o.v.0.0.0.n.1.0 0000>0000:0/0000>1000:0,1",
+		"C05 retry qs 1011.21.11.10 1e:1.0.o.v.1.1.1.n.0.0 0a:3.0.o.v.0.0.0.n.0.0 1e:1.1.s.v.0.1.1.n.0.0 0a:3.1.o.u.0.0.0.n.0.0 0000>0101:0,1/0100>0000:0",
+		"C05 retry qb 0010.-.10.10 0a:1.1.o.v.0.1.1.n.0.0 0a:3.1.o.v.0.1.1.n.0.0 0a:1.1.o.v.0.1.1.f.0.0 0a:3.1.o.u.0.1.1.m.0.0 0000>0000:0,1/0000>0010:1",
 		// OVERLAPPING deliveries.  Enforce-mode MTA-STS, the only MX is not listed (or does not verify): two / three
 		// deliveries start while the policy fetch is in flight, the first / the last one is cancelled / times out
 		"C05 conc 1000.-.10.10 0e:1.1.o.v.0.0.0.n.0.0 0a:3.1.o.v.0.0.0.n.0.0 sc20 000:0/000:0",
@@ -2548,6 +3412,7 @@ func c05Factors(h c05Hist) []string {
 		"alias=" + c05AliasTag(m), c05AliasFactor(m, "tlsaI", string(m.tlsaI)), c05AliasFactor(m, "tlsaIAD", c05b(m.tlsaIAD)),
 		c05AliasFactor(m, "cnameErr", c05b(m.cnameErr)),
 		"fam=" + string(rune(m.fam+'4'*c05b2i(m.fam == 0))),
+		"crash=" + string(rune(m.crash+'-'*c05b2i(m.crash == 0))),
 	}
 }
 
@@ -2566,7 +3431,7 @@ func c05AliasFactor(m c05MX, name, val string) string {
 }
 
 // number of values of each factor, in the order of c05Factors
-var c05FactorSizes = []int{2, 2, 2, 10, 2, 2, 3, 2, 4, 2, 2, 4, 3, 2, 2, 2, 9, 2, 7, 12, 3, 10, 3, 3, 3}
+var c05FactorSizes = []int{2, 2, 2, 10, 2, 2, 3, 2, 4, 2, 2, 4, 3, 2, 2, 2, 9, 2, 7, 12, 3, 10, 3, 3, 3, 4}
 
 func c05b2i(b bool) byte {
 	if b {
@@ -2600,8 +3465,22 @@ func (p *c05Pairwise) report(out *vh.Out) {
 // ---------------------------------------------------------------- entry point
 
 func c05OneCase(t *testing.T, out *vh.Out, pki *c05PKI, h c05Hist, rng *vh.Rng, verbose bool) {
+	if h.retry != 0 {
+		c05OneRetryCase(t, out, pki, h, rng, verbose)
+		return
+	}
 	op := h.Op()
 	env := c05Setup(t, h, pki, rng, verbose)
+	c05ConfigStats(out, h, env)
+	if env.refused {
+		// refused at start-up: nothing is ever sent under this configuration
+		out.Corr(op, "refused")
+		if verbose {
+			fmt.Printf("c05: configuration refused: %s\n%s", env.refusedWhy, env.cfgText)
+		}
+		return
+	}
+	c05ConfigMonitor(out, h, env)
 	obs := c05Run(t, h, env)
 	env.Close()
 	if len(obs) != len(h.msgs) {
@@ -2658,6 +3537,17 @@ func c05OneCase(t *testing.T, out *vh.Out, pki *c05PKI, h c05Hist, rng *vh.Rng, 
 		}
 	}
 	for mi, m := range h.msgs {
+		if h.front == 0 && h.conc == nil {
+			f := c05PoliciesInForce(h.cfg, m)
+			for i, d := range m.rcpts {
+				if mx := h.doms[d].mxs[0]; mx.crash != 0 && len(h.doms[d].mxs) == 1 {
+					out.Stat(fmt.Sprintf("c05.crash.stage=%c.dane-in-force=%s.discovery=%s.rcpt=%s", mx.crash, c05b(f.dane), c05Discovery(mx), obs[mi].rcpt[i]))
+				}
+			}
+			if obs[mi].crashFired {
+				out.Stat("c05.crash.fired-in-message")
+			}
+		}
 		if obs[mi].victim {
 			for i := range m.rcpts {
 				out.Stat(fmt.Sprintf("c05.conc.victim.gate=%c.rcpt=%s", h.conc.gate, obs[mi].rcpt[i]))
@@ -2684,6 +3574,47 @@ func c05OneCase(t *testing.T, out *vh.Out, pki *c05PKI, h c05Hist, rng *vh.Rng, 
 			}
 		}
 	}
+}
+
+// An ACCEPTED configuration enforces the minimum levels its words document: the local policy it produced is asked
+// (through its own CheckMX / CheckConn) about a candidate one level below the documented minimum — it must refuse it.
+// (The data-on-unsatisfying-conn rules judge every delivery against the documented levels as well.)
+func c05ConfigMonitor(out *vh.Out, h c05Hist, env *c05Env) {
+	if !h.cfg.local {
+		return
+	}
+	for _, p := range env.pg.L {
+		lp, ok := p.(*localPolicy)
+		if !ok {
+			continue
+		}
+		dp := lp.Start(&module.MsgMetadata{ID: "c05probe"})
+		var weak []string
+		if l := h.cfg.minTLS; l > 0 {
+			if _, err := dp.CheckConn(context.Background(), module.MX_DNSSEC, module.TLSLevel(l-1), "d0.invalid", "mx1.d0.invalid", tls.ConnectionState{}); err == nil {
+				weak = append(weak, fmt.Sprintf("min_tls_level documents %s, a connection of level %d is let through (stored level %v)", c05TLSWords[l], l-1, lp.minTLSLevel))
+			}
+		}
+		if l := h.cfg.minMX; l > 0 {
+			if _, err := dp.CheckMX(context.Background(), module.MXLevel(l-1), "d0.invalid", "mx1.d0.invalid", false); err == nil {
+				weak = append(weak, fmt.Sprintf("min_mx_level documents %s, an MX of level %d is let through (stored level %v)", c05MXWords[l], l-1, lp.minMXLevel))
+			}
+		}
+		if len(weak) > 0 {
+			out.Violation("C05/configured-minimum-not-enforced", h.Op(), strings.Join(weak, "; ")+"; configuration:\n"+env.cfgText)
+		}
+		return
+	}
+	out.Violation("C05/configured-minimum-not-enforced", h.Op(), "local_policy is configured but no local policy is in the list; configuration:\n"+env.cfgText)
+}
+
+func c05ConfigStats(out *vh.Out, h c05Hist, env *c05Env) {
+	acc := c05b(!env.refused)
+	if w := h.cfg.words; w != nil {
+		out.Stat("c05.cfg.min_tls_level.spelling=" + c05Spelling(w.tls, w.tlsOmit) + ".accepted=" + acc)
+		out.Stat("c05.cfg.min_mx_level.spelling=" + c05Spelling(w.mx, w.mxOmit) + ".accepted=" + acc)
+	}
+	out.Stat("c05.cfg.accepted=" + acc)
 }
 
 // which TLSA base domain decides for an aliased MX (distribution only)
@@ -2863,16 +3794,31 @@ func TestVerifC05(t *testing.T) {
 	pw := &c05Pairwise{seen: map[string]bool{}}
 	n := vh.N(150)
 	for i := 0; i < n; i++ {
-		h := c05GenHist(rng.Fork())
+		hr := rng.Fork()
+		h := c05GenHist(hr)
+		if hr.Chance(7) {
+			c05CrashWorld(hr, &h)
+		}
 		pw.add(h)
 		c05OneCase(t, out, pki, h, rng, false)
 		out.Stat("c05.random")
 	}
 	pw.report(out)
+	// configurations whose level words are spelled in other ways (one eighth of the random histories; refused
+	// configurations cost nothing: nothing runs)
+	for i := 0; i < n/8; i++ {
+		c05OneCase(t, out, pki, c05GenSpelled(rng.Fork()), rng, false)
+		out.Stat("c05.random-spelled")
+	}
 	// through the queue / msgpipeline + queue (one tenth of the random histories)
 	for i := 0; i < n/10; i++ {
 		c05OneCase(t, out, pki, c05GenVia(rng.Fork()), rng, false)
 		out.Stat("c05.random-via")
+	}
+	// several attempts through the queue, the world changing in between (n/25 cases, each sets up two worlds)
+	for i := 0; i < n/25; i++ {
+		c05OneCase(t, out, pki, c05GenRetry(rng.Fork()), rng, false)
+		out.Stat("c05.random-retry")
 	}
 	// overlapping deliveries (one tenth of the random histories)
 	for i := 0; i < n/10; i++ {
